@@ -41,6 +41,23 @@ func genATCase(r *Rng, w *ATWorld, id string, o ATGenOpts) *ATCase {
 			l.Stmts = append(l.Stmts, st)
 			c.Classes = append(c.Classes, st.Classes...)
 		}
+		// an explicit transaction whose application ignores a failed statement (an INSERT of an existing
+		// key) and commits what went through
+		if l.Explicit && o.ContinueOnError && len(c.Rows) > 0 && r.Chance(40) {
+			l.ContinueOnError = true
+			src := c.Rows[r.Intn(len(c.Rows))]
+			var es []*ATExpr
+			for ci, col := range c.Schema.Cols {
+				v := genVal(r, col)
+				if c.Schema.isPK(ci) {
+					v = src[ci]
+				}
+				es = append(es, &ATExpr{K: 'l', Val: v})
+			}
+			at := r.Intn(len(l.Stmts) + 1)
+			bad := &ATStmt{Kind: 'X', Rows: [][]*ATExpr{es}}
+			l.Stmts = append(l.Stmts[:at], append([]*ATStmt{bad}, l.Stmts[at:]...)...)
+		}
 		c.Locals = append(c.Locals, l)
 	}
 	return c
@@ -53,7 +70,7 @@ func runC01(c *Ctx) {
 	for i := 0; i < n; i++ {
 		r := rng.Fork()
 		cid := fmt.Sprintf("c01-%d", i)
-		o := ATGenOpts{AllowFindings: r.Chance(25), NullableVals: r.Chance(50)}
+		o := ATGenOpts{AllowFindings: r.Chance(25), NullableVals: r.Chance(50), BigInts: r.Chance(15), ContinueOnError: r.Chance(40)}
 		cs := genATCase(r, w, cid, o)
 		if !c.Want(cid) {
 			continue
